@@ -31,8 +31,8 @@ type c18Event struct {
 	Name   string `json:"name"`
 	Expr   string `json:"expr"`
 	Doc    string `json:"doc"`
-	Shared bool   `json:"shared"` // use the history's shared parsed tree / decoder / evaluator / printer
-	Out    string `json:"out,omitempty"`  // output format (default yaml)
+	Shared bool   `json:"shared"`        // use the history's shared parsed tree / decoder / evaluator / printer
+	Out    string `json:"out,omitempty"` // output format (default yaml)
 }
 
 func c18Alphabet() []c18Event {
@@ -238,9 +238,9 @@ type c18Point struct {
 }
 
 type c18Exec struct {
-	points  []c18Point
-	choices []int
-	outs    []string
+	points   []c18Point
+	choices  []int
+	outs     []string
 	diverged string
 }
 
